@@ -66,6 +66,35 @@ def gen(rng, tier):
                         for f2 in FAMS:
                             if f2 != fam:
                                 out.append(Case("inverse", ty, f2, "-", [nx, ny], cn + ax + ay, tag=tag))
+        # a rare outcome of a rare cause: P(y0|x0) = c and a(x0) = a are both far above the tolerance, their product
+        # a c is below it (2^-54 / 2^-25), every other cause rules y0 out: Bayes gives P(x0|y0) = 1, and the likelihood
+        # column of y0 is NOT all zero although its weighted sum is "zero" for the tolerance test.  All numbers dyadic.
+        ea, ec = (27, 27) if ty == "f64" else (12, 13)
+        for nx, ny in [(2, 2), (3, 2), (2, 3), (3, 3)]:
+            for i in range(2 if tier == "quick" else 40):
+                a0, c0 = 2.0 ** -(ea + rng.below(2)), 2.0 ** -(ec + rng.below(2))
+                x0, y0 = rng.below(nx), rng.below(ny)
+                cs = []
+                for x in range(nx):
+                    k = G.composition(rng, 8, ny - 1, zero_bias=0)
+                    b = [v / 8.0 for v in k]
+                    j = max(range(ny - 1), key=lambda t: b[t])
+                    if x == x0:
+                        b[j] -= c0
+                    b = b[:y0] + [c0 if x == x0 else 0.0] + b[y0:]
+                    cs.append((b, 0.0))
+                rest = G.composition(rng, 8 - (nx - 1), nx - 1, zero_bias=0)
+                ax = [(v + 1) / 8.0 for v in rest]            # strictly positive base rates
+                j = max(range(nx - 1), key=lambda t: ax[t])
+                ax[j] -= a0
+                ax = ax[:x0] + [a0] + ax[x0:]
+                ay = G.grid_dist(rng, ny, 8, True)
+                cn = sum((flat_sx(c) for c in cs), [])
+                for fam in (FAMS if i == 0 else [rng.choice(FAMS)]):
+                    out.append(Case("inverse", ty, fam, "-", [nx, ny], cn + ax + ay, tag="rare_outcome_of_rare_cause"))
+                wy = ([1.0 if y == y0 else 0.0 for y in range(ny)], 0.0)
+                out.append(Case("abduce", ty, rng.choice(FAMS), rng.choice(["spx", "ref", "own"]), [nx, ny],
+                                flat_sx(wy) + cn + ax, tag="rare_outcome_of_rare_cause"))
     return out
 
 
